@@ -127,6 +127,12 @@ impl EventSource for Timer {
             if registration.token != token {
                 return Ok(PostAction::Continue);
             }
+            // If our current timeout is still pending in the wheel, this event was generated
+            // by a previous registration of this timer (it was re-registered after its expired
+            // timeout had been collected): the timer must only fire for its current timeout.
+            if registration.wheel.borrow().contains(registration.counter) {
+                return Ok(PostAction::Continue);
+            }
             let new_deadline = match callback(*deadline, &mut ()) {
                 TimeoutAction::Drop => return Ok(PostAction::Remove),
                 TimeoutAction::ToInstant(instant) => instant,
@@ -248,6 +254,10 @@ impl TimerWheel {
         };
 
         self.heap.retain(|data| data.counter != counter);
+    }
+
+    pub(crate) fn contains(&self, counter: u32) -> bool {
+        self.heap.iter().any(|data| data.counter == counter)
     }
 
     pub(crate) fn next_expired(&mut self, now: Instant) -> Option<(u32, Token)> {
